@@ -361,7 +361,7 @@ def is_convex_ccw(xy):
     return bool(abs(turn.sum() - 2 * np.pi) < 1e-6)
 
 
-def polygon_case(rng, allow_tilt=True, kind=None, straight_frac=0.12, far_frac=0.0, far_tilted=True):
+def polygon_case(rng, allow_tilt=True, kind=None, straight_frac=0.12, far_frac=0.0, far_tilted=True, unit_frac=0.0):
     """One G-poly case: 3-D vertex list, the stated normal (or None), and facts."""
     xy, k = simple_polygon_2d(rng)
     if kind is not None:
@@ -419,6 +419,11 @@ def polygon_case(rng, allow_tilt=True, kind=None, straight_frac=0.12, far_frac=0
         V[:, :2] += rng.uniform(-3, 3, size=2) * scale
     elif k == "lattice":
         V[:, :2] += rng.integers(-10, 11, size=2)
+    unit = 1.0
+    if unit_frac and k != "lattice" and rng.random() < unit_frac:
+        # the same polygon in very small / very large units (every judged quantity is homogeneous in length)
+        unit = float(10 ** rng.uniform(-9, -5)) if rng.random() < 0.7 else float(10 ** rng.uniform(4, 6))
+        V = V * unit
     far = 0.0
     if far_frac and rng.random() < far_frac and (far_tilted or not tilt):
         # (far_tilted=False: only polygons in a plane z = const, which stay exactly planar however far they are moved)
@@ -455,7 +460,7 @@ def polygon_case(rng, allow_tilt=True, kind=None, straight_frac=0.12, far_frac=0
             "tilted": bool(tilt), "ccw": bool(ccw_about_normal), "straight_corner": straight,
             "convex": straight is None and is_convex_ccw(xy if ccw_in_plane else xy[::-1]),
             "size": diameter(V), "xy_plane": (not tilt), "lattice": k == "lattice" and not tilt,
-            "normal_mode": mode, "far": far}
+            "normal_mode": mode, "far": far, "unit": unit}
 
 
 # ---------------------------------------------------------------------------
@@ -659,11 +664,18 @@ def perturbed_hull_mesh(rng, n=None):
     return P * r[:, None], faces
 
 
-def affine_map(rng, anisotropic=True):
+def affine_map(rng, anisotropic=True, shear=False):
     R = random_rotation(rng)
     s = np.exp(rng.uniform(-0.8, 0.8, size=3)) if anisotropic and rng.random() < 0.5 else np.ones(3)
     g = float(np.exp(rng.uniform(-1.0, 1.0)))
-    return R @ np.diag(s * g)
+    A = R @ np.diag(s * g)
+    if shear and rng.random() < 0.4:
+        # a shear keeps faces planar and convex and maps the exact answers in closed form like any affine map, but turns
+        # the rectangles of a voxel solid into parallelograms: faces with equal side lengths that are no longer congruent
+        S = np.eye(3)
+        S[0, 1], S[0, 2], S[1, 2] = rng.uniform(-0.7, 0.7, size=3) * (rng.random(3) < 0.7)
+        A = R @ S @ np.diag(s * g)
+    return A
 
 
 def aligned_map(rng):
@@ -687,7 +699,7 @@ def mesh_case(rng, kinds=("voxel", "extrusion", "perturbed", "convexcopy"), alig
     if kind == "voxel":
         cells, tname = voxel_cells(rng)
         V0, faces = voxel_mesh(cells)
-        A = aligned_map(rng) if aligned else affine_map(rng)
+        A = aligned_map(rng) if aligned else affine_map(rng, shear=True)
         info.update({"cells": cells, "template": tname, "A": A, "genus": genus_from_mesh(len(V0), faces)})
     elif kind == "extrusion":
         for _ in range(50):
@@ -780,9 +792,12 @@ def unit_factor(rng, p=0.1):
 
 
 def center_case(rng, size, dims=3):
-    mode = str(rng.choice(["origin", "generic", "axis", "far"]))
+    mode = str(rng.choice(["origin", "generic", "axis", "far", "near"]))
     if mode == "origin":
         c = np.zeros(3)
+    elif mode == "near":
+        # off the origin by a small fraction of the size (an "is it centred?" shortcut must not take this for the origin)
+        c = rng.uniform(-1, 1, size=3) * size * float(10 ** rng.uniform(-4, -1))
     elif mode == "axis":
         c = np.zeros(3)
         c[int(rng.integers(dims))] = rng.uniform(-5, 5) * size
